@@ -256,6 +256,16 @@ REJECTS = {
     "BlockKFold-n_splits": lambda: vd.BlockKFold(spacing=1.0, n_splits=1),
     "grid-coordinates+shape": lambda: MomentGridder().grid(coordinates=(np.arange(3.0), np.arange(2.0)), shape=(2, 3)),
     "longitude_continuity-range": lambda: vd.longitude_continuity(None, (-200.0, 10.0, 0.0, 1.0)),
+    # component counts that disagree by a missing (None) entry: any error is a rejection, running unweighted is a guess
+    "anyerror:check_fit_input-weights-(w,None)": lambda: vd.base.check_fit_input((np.arange(4.0), np.arange(4.0)), (np.arange(4.0), np.arange(4.0)),
+                                                                                   (np.ones(4), None)),
+    "anyerror:check_fit_input-weights-(None,w)": lambda: vd.base.check_fit_input((np.arange(4.0), np.arange(4.0)), (np.arange(4.0), np.arange(4.0)),
+                                                                                   (None, np.ones(4))),
+    "anyerror:Vector.fit-weights-(w,None)": lambda: vd.Vector([vd.Trend(1), vd.Trend(1)]).fit(
+        (np.arange(5.0), np.arange(5.0) ** 2), (np.arange(5.0), np.arange(5.0)), (np.ones(5), None)),
+    "anyerror:BlockMean.filter-weights-(w,None)": lambda: vd.BlockMean(spacing=2.0).filter(
+        (np.arange(6.0), np.arange(6.0)), (np.arange(6.0), np.arange(6.0) * 2), (np.ones(6), None)),
+    "anyerror:Trend.fit-weights-(w,None)": lambda: vd.Trend(1).fit((np.arange(5.0), np.arange(5.0) ** 2), np.arange(5.0), (np.ones(5), None)),
 }
 UNFITTED = {"Trend": lambda: vd.Trend(1), "Spline": lambda: vd.Spline(), "SplineCV": lambda: vd.SplineCV(), "VectorSpline2D": lambda: vd.VectorSpline2D(),
             "KNeighbors": lambda: vd.KNeighbors(), "Linear": lambda: vd.Linear(), "Cubic": lambda: vd.Cubic(),
@@ -429,6 +439,8 @@ def oracle(case, io):
             return f"{a[0]} is not repeatable: two calls with identical arguments differ"
         return None
     if fn == "reject":
+        if a[0].startswith("anyerror:"):
+            return None if io[1] != "accepted" else f"{a[0]}: inconsistent input was accepted instead of rejected with an error"
         return None if io[1] == "ValueError" else f"{a[0]}: inconsistent/invalid input was {io[1]} instead of rejected with ValueError"
     if fn == "unfitted":
         return None if io[1] == "NotFittedError" else f"{a[0]}.predict before fit: {io[1]} instead of NotFittedError"
